@@ -200,7 +200,7 @@ theorem next_views {db db' : DB} {e : Bytes} {f : Nat} (h : db.nextFCntDn e = so
       intro x _
       simp only [Function.comp]
       split <;> rfl
-    · unfold DB.byEUI at hd
+    · unfold DB.rowByEUI at hd
       have hm := List.mem_of_find?_eq_some hd
       have hp := List.find?_some hd
       exact ⟨(d.eui, d.fcntDn), List.mem_map.mpr ⟨d, hm, rfl⟩, by simpa using hp, rfl⟩
@@ -239,15 +239,7 @@ theorem addNonce_views {db db' : DB} {e : Bytes} {n : Nat} (h : db.addNonce e n 
     upView db' = upView db ∧ dnView db' = dnView db := by
   unfold DB.addNonce at h
   split at h
-  · split at h
-    · cases h
-    · cases h
-      constructor <;>
-      · simp only [upView, dnView, List.map_map]
-        apply List.map_congr_left
-        intro x _
-        simp only [Function.comp]
-        split <;> rfl
+  · cases h
   · cases h; exact ⟨rfl, rfl⟩
 
 theorem addInbox_devices {db db' : DB} {r : InRow} (h : db.addInbox r = some db') : db'.devices = db.devices := by
@@ -357,9 +349,11 @@ theorem eff_stepJoin (E : Spec.Rfc4493.BlockFn) (cfg : Config) (sys : Sys) (s : 
   split
   all_goals (repeat' split)
   all_goals close_eff
-  · rename_i h; exact eff_of_addNonce h rfl rfl rfl
-  · rename_i h _; exact eff_of_updateDevice h rfl rfl rfl
-  · rename_i h _; exact eff_of_updateDevice h rfl rfl rfl
+  all_goals first
+    | (rename_i h; exact eff_of_addNonce h rfl rfl rfl)
+    | (rename_i h _; exact eff_of_updateDevice h rfl rfl rfl)
+    | (rename_i h _ _; exact eff_of_updateDevice h rfl rfl rfl)
+    | (rename_i h; exact eff_of_updateDevice h rfl rfl rfl)
 
 theorem eff_stepEncoder (E D : Spec.Rfc4493.BlockFn) (sys : Sys) (pc : Nat) (p : PHY) (c : Ctx) (b : Bytes) (fault : Bool) :
     Eff sys (stepEncoder E D sys pc p c b fault).1 := by
